@@ -32,12 +32,15 @@ class H1Run:
         t = TIERS[tier]
         key = sha(header_hash(), seed, tier, VERIF + "/tools", VERIF + "/harness/ml", COQ + "/Model")
         def gen(d): return [sys.executable, VERIF + "/tools/gen_h1_cases.py", self.h1dir + "/carriers.json", d + "/cases", str(seed), str(t["ngram"]), str(t["nin"]), str(t["exl"]), d + "/meta.json"]
-        self.dir = run_family("h1", gen, self.h1dir + "/h1", self.mdir + "/h1_model", key)
+        self.dir = run_family("h1", gen, self.h1dir + "/h1", self.mdir + "/h1_model", key, second_model_on_real=True)
         self.status = json.load(open(self.dir + "/status.json"))
         self.meta = json.load(open(self.dir + "/meta.json"))
         self.gis = parse_case_file(self.dir + "/cases")
         self.real = {k: parse_h1_case(v) for k, v in split_cases(read(self.dir + "/real.out")).items()}
+        # model      : generator mirror + driver mirror (tables computed by LRGen.gen)
+        # model_rt   : driver / diagnostics mirror run on the tables dumped from the REAL generator (isolates the driver tie from the generator tie)
         self.model = {k: parse_h1_case(v) for k, v in split_cases(read(self.dir + "/model.out")).items()}
+        self.model_rt = {k: parse_h1_case(v) for k, v in split_cases(read(self.dir + "/model_rt.out")).items()}
         self.carriers = json.load(open(self.h1dir + "/carriers.json"))
 
     def crashed(self):
